@@ -1645,8 +1645,12 @@ private:
   void updateCache(const std::string &key, const std::vector<std::uint8_t> &value,
                    std::chrono::system_clock::time_point expiry) const
   {
+    if (_config.maxCacheSize == 0)
+    {
+      return; // cache disabled: nothing to evict, nothing to store
+    }
     std::unique_lock<std::shared_mutex> lock(_cacheMutex);
-    if (_cache.size() >= _config.maxCacheSize)
+    if (_cache.size() >= _config.maxCacheSize && !_cache.empty())
     {
       // Simple LRU eviction - remove first element
       _cache.erase(_cache.begin());
